@@ -265,7 +265,9 @@ class LineSequence(Sequence):
     super().__init__(perms, serializer, deserializer)
     self._path = path
     self._mode = mode
-    self._file = file_system.open(path, mode)
+    # NOTE: Records are delimited by '\n' only: no newline translation, or a
+    # record that contains '\r' would be split when read back.
+    self._file = file_system.open(path, mode, newline='\n')
 
   def __len__(self):
     raise NotImplementedError(
